@@ -11,6 +11,7 @@ exit 1  violated  (one `VIOLATION property=<id> replay=<path>` line per mechanis
 exit 2  inconclusive (no VIOLATION line)
 """
 import importlib
+import glob as glob_mod
 import json
 import os
 import shutil
@@ -196,6 +197,18 @@ def main(argv):
         except OSError:
             pass
     descs = mod.plan(tier, seed)
+    # directed probes: one committed, deterministic case per recorded known finding
+    # (probes/<PROP>/*.json), run through the driver's own monitors in both tiers
+    probe_files = sorted(glob_mod.glob(os.path.join(VERIF_DIR, "probes", prop, "*.json")))
+    probes = []
+    for pf in probe_files:
+        try:
+            with open(pf) as f:
+                probes.append(json.load(f))
+        except Exception:
+            pass
+    if probes and hasattr(mod, "run_probe"):
+        descs = list(descs) + [{"kind": "probes", "probes": probes}]
     for i, d in enumerate(descs):
         d.setdefault("tier", tier)
         d.setdefault("seed", seed)
@@ -355,8 +368,18 @@ def main(argv):
     _write_evidence(prop, evidence)
 
     # ---- verdict lines -----------------------------------------------------
+    seen_keys = {key for key, _k, _v in known_seen}
+    for pr in probes:
+        if pr.get("expect_key") and pr["expect_key"] not in seen_keys and pr["expect_key"] not in {k for k, _ in fresh}:
+            print(f"NOTE: probe {pr.get('name')} did not reproduce the recorded finding {pr['expect_key']} (the finding may be gone; known_findings.txt should be revisited)")
     for key, k, v in known_seen:
         print(f"KNOWN-FINDING: property={prop} {k.get('what', key)} [key={key}, seen {v['count']}x]")
+        if os.environ.get("CV_DUMP_KNOWN"):
+            # development aid: keep a witness of a recorded finding (to build probes from)
+            dd = os.path.join(_workdir(), "known-witness")
+            os.makedirs(dd, exist_ok=True)
+            with open(os.path.join(dd, f"{prop}-{h(key)}.json"), "w") as f:
+                json.dump({"key": key, "what": v["what"], "witnesses": v["witnesses"]}, f, indent=1, default=repr)
     rc = 0
     if fresh:
         os.makedirs(os.path.join(VERIF_DIR, "replays"), exist_ok=True)
